@@ -16,7 +16,8 @@ package main
 //   from the entry of its function only on paths that
 //     (a) execute a call — whose result is used — of a module function G that is
 //         given the reply's answer section (an argument that reads dns.Msg.Answer)
-//         and the question's type (an argument that reads dns.Question.Qtype), and
+//         and the question's type (an argument that reads dns.Question.Qtype, or
+//         the dns.Question itself / a pointer to it, whose Qtype field G reads), and
 //         in which a record's type (RR_Header.Rrtype / RRSIG.TypeCovered, also
 //         merged in a phi) is compared (==, != or a switch case) with exactly that
 //         parameter — directly or in an unexported helper the parameter (and the
@@ -65,6 +66,19 @@ func c02R14(c *Ctx) {
 	if answerFn == nil || answerF == nil || qtypeF == nil || rrtypeF == nil || coveredF == nil {
 		return
 	}
+	questionT := c.P.TypeName(lib + ".Question")
+	if questionT == nil {
+		c.unresolved(R, "dns.Question", "type not found")
+		return
+	}
+	// isQuestion: dns.Question or *dns.Question
+	isQuestion := func(t types.Type) bool {
+		if p, ok := t.(*types.Pointer); ok {
+			t = p.Elem()
+		}
+		n, ok := t.(*types.Named)
+		return ok && n.Obj() == questionT
+	}
 	readsAnswer := Contains(FieldIs(answerF))
 	readsQtype := Contains(FieldIs(qtypeF))
 	recType := Contains(FieldIs(rrtypeF, coveredF))
@@ -107,9 +121,41 @@ func c02R14(c *Ctx) {
 			return false
 		}
 		par := g.Params[pidx]
+		// the parameter itself, also read back from the local cell go/ssa spills a
+		// struct parameter into (`*t0 = q` … `t0.Qtype`)
+		isWholePar := func(e *Expr) bool {
+			e = strip(e)
+			if e == nil || e.V == nil {
+				return false
+			}
+			if e.V == ssa.Value(par) {
+				return true
+			}
+			if a, ok := e.V.(*ssa.Alloc); ok && a.Referrers() != nil {
+				n, hit := 0, false
+				for _, r := range *a.Referrers() {
+					if st, ok := r.(*ssa.Store); ok && st.Addr == ssa.Value(a) {
+						n++
+						hit = hit || st.Val == ssa.Value(par)
+					}
+				}
+				return hit && n == 1
+			}
+			return false
+		}
+		// isPar: the question's type as g sees it — the parameter when that is the
+		// type itself, the Qtype field of the parameter when g was handed the whole
+		// dns.Question (by value or by pointer)
+		whole := isQuestion(par.Type())
 		isPar := func(e *Expr) bool {
 			e = strip(e)
-			return e != nil && e.V == ssa.Value(par)
+			if e == nil {
+				return false
+			}
+			if whole {
+				return e.K == EField && e.Var == qtypeF && e.Op == 0 && isWholePar(e.X)
+			}
+			return e.V == ssa.Value(par)
 		}
 		isRecPar := func(e *Expr) bool {
 			e = strip(e)
@@ -150,7 +196,8 @@ func c02R14(c *Ctx) {
 							}
 						}
 						for j, a := range x.Call.Args {
-							if isPar(Desc(a)) && comparesWith(h, j, rp, depth+1) {
+							d := Desc(a)
+							if (isPar(d) || (whole && isWholePar(d) && isQuestion(a.Type()))) && comparesWith(h, j, rp, depth+1) {
 								return true
 							}
 						}
@@ -195,6 +242,14 @@ func c02R14(c *Ctx) {
 			return false
 		}
 		for j, a := range call.Call.Args {
+			if isQuestion(a.Type()) {
+				// the whole question is handed over: the callee reads its Qtype
+				if comparesWith(g, j, nil, 0) {
+					res = true
+					return true
+				}
+				continue
+			}
 			if _, basic := a.Type().Underlying().(*types.Basic); !basic {
 				continue
 			}
